@@ -18,13 +18,18 @@ def main():
             print("setup: missing tool", tool[0], e)
             bad += 1
     mods = sorted(glob.glob(os.path.join(common.SPEC, "*.tla")))
-    for m in mods:
+    import concurrent.futures as cf
+
+    def sany(m):
         p = subprocess.run(["java", "-cp", common.TLA_CP, "tla2sany.SANY", os.path.basename(m)], cwd=common.SPEC,
                            stdout=subprocess.PIPE, stderr=subprocess.STDOUT, text=True)
-        if p.returncode != 0 or "Fatal errors" in p.stdout or "*** Errors" in p.stdout:
-            print("setup: SANY failed on", m)
-            print(p.stdout[-2000:])
-            bad += 1
+        return m, p
+    with cf.ThreadPoolExecutor(max_workers=8) as ex:
+        for m, p in ex.map(sany, mods):
+            if p.returncode != 0 or "Fatal errors" in p.stdout or "*** Errors" in p.stdout:
+                print("setup: SANY failed on", m)
+                print(p.stdout[-2000:])
+                bad += 1
     print("setup: parsed %d modules, %d problems" % (len(mods), bad))
     # smoke test of TLC and of the word library (8-bit, reduced operand set; --full: all 65,536 pairs)
     cfg = "WordsCheck1.cfg" if "--full" in sys.argv else "WordsCheck1q.cfg"
